@@ -5,44 +5,46 @@ From Algo.C12 Require Import Model Spec ProofsSound ProofsComplete ProofsTerm.
 Import ListNotations.
 
 (** the table of a valid grammar without conflict error is deterministic, and it is [table_build] *)
-Lemma conflict_free_table G M :
-  valid G -> BuildParsingTable G = Some (M, false) ->
-  exists fi fo, first_table G = Some fi /\ follow_table G fi = Some fo /\
+Lemma conflict_free_table G O M :
+  oracle_ok G O -> valid G -> BuildParsingTable G O = Some (M, false) ->
+  exists fi fo, first_table G O = Some fi /\ follow_table G O fi = Some fo /\
                 M = table_build G fi fo /\ table_deterministic M.
 Proof.
-  intros HV H. destruct (analyse_total G) as [nu [fi [fo [_ [Ef [Eo Ea]]]]]].
+  intros HO HV H. destruct (analyse_total G O HO) as [nu [fi [fo [_ [Ef [Eo Ea]]]]]].
   unfold BuildParsingTable in H. rewrite Ea in H. simpl in H. inversion H as [[HM Hc]].
-  exists fi, fo. repeat split; auto. now apply (conflicts_false_deterministic G fi fo Ef Eo HV).
+  exists fi, fo. repeat split; auto. now apply (conflicts_false_deterministic G O HO fi fo Ef Eo HV).
 Qed.
 
 Section Parse.
   Variable G : gram.
+  Variable O : oracle.
+  Hypothesis HO : oracle_ok G O.
 
   (** ** soundness: for every grammar *)
   Theorem parse_sound f w ps :
-    Parse G f w = PAccept ps ->
+    Parse G O f w = PAccept ps ->
     lm_derives G ps [Nt (start G)] (map Tm (word w)) /\ sentence G w.
   Proof.
     unfold Parse, Parse_bt, parse_with.
-    destruct (BuildParsingTable G) as [[M [|]]|] eqn:EB; try discriminate.
+    destruct (BuildParsingTable G O) as [[M [|]]|] eqn:EB; try discriminate.
     destruct (parse_loop _ _ M f [Nt (start G)] w []) as [s|e s| | |] eqn:EL; try discriminate.
     intros H; inversion H; subst ps.
-    destruct (parse_loop_sound G M (built_table_sound G M false EB) f _ _ _ _ [] EL) as [ps [E D]].
+    destruct (parse_loop_sound G M (built_table_sound G O M false HO EB) f _ _ _ _ [] EL) as [ps [E D]].
     rewrite app_nil_r in E. subst s. rewrite rev_involutive. simpl in D.
     split; [exact D|]. apply (lm_derives_derives G ps). exact D.
   Qed.
 
   (** a string that is not a sentence is never accepted — in particular a sentence followed by
       further tokens (the loop may not stop at the endmarker on the stack while input remains) *)
-  Corollary parse_rejects_non_sentences f w ps : ~ sentence G w -> Parse G f w <> PAccept ps.
+  Corollary parse_rejects_non_sentences f w ps : ~ sentence G w -> Parse G O f w <> PAccept ps.
   Proof. intros Hn H. now apply Hn, (parse_sound f w ps). Qed.
 
   (** ** the AST *)
   Theorem ast_sound f w r :
-    ParseAndBuildAST G f w = PAccept r -> exists t, r = Some t /\ yield t = w.
+    ParseAndBuildAST G O f w = PAccept r -> exists t, r = Some t /\ yield t = w.
   Proof.
     unfold ParseAndBuildAST, ParseAndBuildAST_bt, parse_with.
-    destruct (BuildParsingTable G) as [[M [|]]|] eqn:EB; try discriminate.
+    destruct (BuildParsingTable G O) as [[M [|]]|] eqn:EB; try discriminate.
     destruct (parse_loop _ _ M f [Nt (start G)] w (ast_init (start G))) as [s|e s| | |] eqn:EL; try discriminate.
     destruct (ast_loop_sound M f _ _ _ _ [] (ast_init_inv G) EL) as [Hb [t [Et Y]]].
     rewrite Hb. intros H; inversion H; subst r. exists t. split; [exact Et | exact Y].
@@ -50,17 +52,17 @@ Section Parse.
 
   (** Parse and ParseAndBuildAST give the same verdict *)
   Theorem ast_verdict f w :
-    match Parse G f w with
-    | PAccept _ => exists t, ParseAndBuildAST G f w = PAccept (Some t) /\ yield t = w
-    | PReject e _ => ParseAndBuildAST G f w = PReject e None
-    | PTableError => ParseAndBuildAST G f w = PTableError
-    | PPanic => ParseAndBuildAST G f w = PPanic
-    | PHang => ParseAndBuildAST G f w = PHang
+    match Parse G O f w with
+    | PAccept _ => exists t, ParseAndBuildAST G O f w = PAccept (Some t) /\ yield t = w
+    | PReject e _ => ParseAndBuildAST G O f w = PReject e None
+    | PTableError => ParseAndBuildAST G O f w = PTableError
+    | PPanic => ParseAndBuildAST G O f w = PPanic
+    | PHang => ParseAndBuildAST G O f w = PHang
     end.
   Proof.
     pose proof (ast_sound f w) as AS.
     unfold Parse, Parse_bt, ParseAndBuildAST, ParseAndBuildAST_bt, parse_with in *.
-    destruct (BuildParsingTable G) as [[M [|]]|] eqn:EB; try reflexivity.
+    destruct (BuildParsingTable G O) as [[M [|]]|] eqn:EB; try reflexivity.
     pose proof (parse_loop_verdict (fun (s : list prod) (_ : token) => s) (fun s p => p :: s)
                   ast_token ast_prod M f [Nt (start G)] w [] (ast_init (start G))) as V.
     destruct (parse_loop _ _ M f [Nt (start G)] w []) as [s|e s| | |];
@@ -72,10 +74,10 @@ Section Parse.
   Qed.
 
   (** ** more fuel never changes the result of a finished run *)
-  Theorem parse_fuel_mono f k w : Parse G f w <> PHang -> Parse G (f + k) w = Parse G f w.
+  Theorem parse_fuel_mono f k w : Parse G O f w <> PHang -> Parse G O (f + k) w = Parse G O f w.
   Proof.
     unfold Parse, Parse_bt, parse_with.
-    destruct (BuildParsingTable G) as [[M [|]]|]; try reflexivity.
+    destruct (BuildParsingTable G O) as [[M [|]]|]; try reflexivity.
     intros H. rewrite parse_loop_fuel_mono; [reflexivity|].
     intros E. apply H. now rewrite E.
   Qed.
@@ -83,29 +85,29 @@ Section Parse.
   (** ** completeness, for valid grammars with a conflict-free table *)
   Hypothesis HV : valid G.
   Variable M : table.
-  Hypothesis HB : BuildParsingTable G = Some (M, false).
+  Hypothesis HB : BuildParsingTable G O = Some (M, false).
 
   Theorem parse_complete w :
-    sentence G w -> exists f0, forall f, f0 <= f -> exists ps, Parse G f w = PAccept ps.
+    sentence G w -> exists f0, forall f, f0 <= f -> exists ps, Parse G O f w = PAccept ps.
   Proof.
-    intros HS. destruct (conflict_free_table G M HV HB) as [fi [fo [Ef [Eo [-> HD]]]]].
+    intros HS. destruct (conflict_free_table G O M HO HV HB) as [fi [fo [Ef [Eo [-> HD]]]]].
     destruct (derives_gen G _ _ HS) as [n Hn]. exists (S n). intros f Hf.
     unfold Parse, Parse_bt, parse_with. rewrite HB.
-    destruct (parse_loop_complete G fi fo Ef Eo HD (fun (s : list prod) (_ : token) => s) (fun s p => p :: s)
+    destruct (parse_loop_complete G fi fo O HO Ef Eo HD (fun (s : list prod) (_ : token) => s) (fun s p => p :: s)
                 n [Nt (start G)] [] w [] f Hn (derives_refl G _)) as [s' E]; [lia|].
     rewrite E. eauto.
   Qed.
 
-  Theorem parse_no_panic f w : Parse G f w <> PPanic.
+  Theorem parse_no_panic f w : Parse G O f w <> PPanic.
   Proof.
-    destruct (conflict_free_table G M HV HB) as [fi [fo [Ef [Eo [EM HD]]]]].
+    destruct (conflict_free_table G O M HO HV HB) as [fi [fo [Ef [Eo [EM HD]]]]].
     unfold Parse, Parse_bt, parse_with. rewrite HB. subst M.
     pose proof (parse_loop_no_panic G fi fo HD (fun (s : list prod) (_ : token) => s) (fun s p => p :: s)
                   f [Nt (start G)] w []) as NP.
     destruct (parse_loop _ _ _ f [Nt (start G)] w []); congruence.
   Qed.
 
-  Theorem parse_accept_iff w : (exists f ps, Parse G f w = PAccept ps) <-> sentence G w.
+  Theorem parse_accept_iff w : (exists f ps, Parse G O f w = PAccept ps) <-> sentence G w.
   Proof.
     split.
     - intros [f [ps H]]. now apply (parse_sound f w ps).
@@ -113,19 +115,36 @@ Section Parse.
   Qed.
 
   (** the loop terminates on every token list *)
-  Theorem parse_terminates w : exists f0, forall f, f0 <= f -> Parse G f w <> PHang.
+  Theorem parse_terminates w : exists f0, forall f, f0 <= f -> Parse G O f w <> PHang.
   Proof.
-    destruct (conflict_free_table G M HV HB) as [fi [fo [Ef [Eo [EM HD]]]]]. subst M.
-    destruct (loop_terminates G fi fo Ef Eo HD (fun (s : list prod) (_ : token) => s) (fun s p => p :: s)
+    destruct (conflict_free_table G O M HO HV HB) as [fi [fo [Ef [Eo [EM HD]]]]]. subst M.
+    destruct (loop_terminates G fi fo O HO Ef Eo HD (fun (s : list prod) (_ : token) => s) (fun s p => p :: s)
                 (length w) w eq_refl [Nt (start G)] []) as [k Hk].
     exists k. intros f Hf. unfold Parse, Parse_bt, parse_with. rewrite HB.
     replace f with (k + (f - k)) by lia. specialize (Hk (f - k)).
     destruct (parse_loop _ _ _ (k + (f - k)) [Nt (start G)] w []); congruence.
   Qed.
 
+  (** everything in one statement *)
+  Theorem parse_sound_complete w :
+    exists f0, forall f, f0 <= f ->
+      Parse G O f w <> PHang /\ Parse G O f w <> PPanic /\
+      ((exists ps, Parse G O f w = PAccept ps) <-> sentence G w) /\
+      (forall ps, Parse G O f w = PAccept ps -> lm_derives G ps [Nt (start G)] (map Tm (word w))).
+  Proof.
+    destruct (parse_terminates w) as [f1 H1].
+    exists f1. intros f Hf. split; [now apply H1|]. split; [apply parse_no_panic|]. split.
+    - split.
+      + intros [ps H]. now apply (parse_sound f w ps).
+      + intros HS. destruct (parse_complete w HS) as [f0 H0].
+        destruct (H0 (f + f0)) as [ps Hps]; [apply Nat.le_add_l|].
+        exists ps. rewrite <- Hps. symmetry. apply parse_fuel_mono. now apply H1.
+    - intros ps H. now apply (parse_sound f w ps).
+  Qed.
+
   (** the run on a sentence terminates, and every long enough run gives the same answer *)
   Theorem parse_terminates_on_sentences w :
-    sentence G w -> exists f0, forall f, f0 <= f -> Parse G f w <> PHang.
+    sentence G w -> exists f0, forall f, f0 <= f -> Parse G O f w <> PHang.
   Proof.
     intros HS. destruct (parse_complete w HS) as [f0 H]. exists f0. intros f Hf.
     destruct (H f Hf) as [ps E]. rewrite E. discriminate.
